@@ -115,6 +115,7 @@ def run_shards(modname, shards, nproc=None):
         return merge(packs)
     ctx = mp.get_context('fork')
     with cf.ProcessPoolExecutor(max_workers=min(nproc, len(shards)), mp_context=ctx) as ex:
+        _EXECUTOR[0] = ex
         try:
             for st, p in ex.map(_run_shard, [(modname, s) for s in shards], chunksize=1):
                 if st != 'ok':
@@ -125,7 +126,17 @@ def run_shards(modname, shards, nproc=None):
     return merge(packs)
 
 
+_EXECUTOR = [None]
+
+
 def harness_error(msg):
+    ex = _EXECUTOR[0]
+    if ex is not None:
+        for proc in list(getattr(ex, '_processes', {}).values()):
+            try:
+                proc.kill()
+            except Exception:
+                pass
     sys.stdout.flush()
     sys.stderr.write('HARNESS-ERROR: %s\n' % (msg,))
     sys.stderr.flush()
